@@ -42,8 +42,8 @@ func checkC06(r *Run) {
 	bangArmRule(r, "R8")
 	c06Precedence(r)
 	c06Pratt(r)
-	c06OperatorTables(r)
-	c06ShortCircuit(r)
+	c06TablesSSA(r)
+	c06ShortCircuitSSA(r)
 	lx := analyseLexerArms(w)
 	c06LexerLiterals(r, lx)
 	lexerCursorRule(r, "R7", lx, func(a lexArm) bool { return !a.isComment })
